@@ -1121,6 +1121,55 @@ fn e10(out: &mut Out, os: &[u32], full: bool) {
     }
 }
 
+/// E11: strings and keys of 0..=70 ASCII characters followed by a 2-, 3- or 4-byte character
+/// (raw, and as an escape / escaped surrogate pair), then a tail: every fill level of an internal
+/// buffer of up to 64 bytes meets every character width.
+fn e11(out: &mut Out, os: &[u32], full: bool) {
+    let tails = ["", "z"];
+    for k in 0..=(if full { 140usize } else { 70 }) {
+        let run: String = (0..k).map(|i| (b'a' + (i % 26) as u8) as char).collect();
+        for c in ["\u{e9}", "\u{20ac}", "\u{1f600}", "\\u00e9", "\\ud83d\\ude00", "\\n"] {
+            for (ti, tail) in tails.iter().enumerate() {
+                for &o in os {
+                    out.case(|| text_case(o, &format!("\"{run}{c}{tail}\"")));
+                    if ti == 0 && k % 3 == 0 {
+                        out.case(|| text_case(o, &format!("{{\"{run}{c}\":[\"{c}{run}\"]}}")));
+                    }
+                }
+            }
+        }
+    }
+}
+
+/// E12: byte inputs whose first ill-formed sequence lies 0..4 bytes after a prefix that is (or is
+/// about to become) a syntax error: the syntax error strictly before it wins, otherwise the
+/// ill-formed sequence is reported (a parser that reads ahead would reverse the two).
+fn e12(out: &mut Out, os: &[u32]) {
+    let prefixes = [
+        "", "n", "nu", "nul", "null", "t", "tr", "tru", "true", "f", "fa", "fal", "fals", "false", "[n", "[nu", "[t", "[fa", "{\"a\":n", "{\"a\":tr",
+        "1", "-", "1.", "1e", "[1", "[1,", "\"", "\"a", "\"\\", "\"\\u", "\"\\u1", "\"\\u12", "\"\\ud800", "\"\\ud800\\", "[", "{", "{\"a\"", "{\"a\":", "[]", " ",
+    ];
+    let mids = ["", "x", "]", ",", " ", "l", "u", "e", "xy", "],", "ul", "  ", "xyz", "ull"];
+    let bad: [&[u8]; 4] = [&[0xff], &[0xc3], &[0xed, 0xa0, 0x80], &[0xf4, 0x90, 0x80, 0x80]];
+    for p in prefixes {
+        for m in mids {
+            for (bi, b) in bad.iter().enumerate() {
+                if bi > 0 && m.len() > 1 {
+                    continue;
+                }
+                for &o in os {
+                    let mut bytes = p.as_bytes().to_vec();
+                    bytes.extend_from_slice(m.as_bytes());
+                    bytes.extend_from_slice(b);
+                    out.case_str(&bytes_case(o, &bytes));
+                    bytes.extend_from_slice(b"]");
+                    out.case_str(&bytes_case(o, &bytes));
+                }
+            }
+        }
+    }
+}
+
 /// The shared suite.  `os` = option records to exercise.
 pub fn suite(args: &Args, out: &mut Out, os: &[u32], weight: usize) {
     let mut rng = Rng::new(args.seed);
@@ -1151,6 +1200,8 @@ pub fn suite(args: &Args, out: &mut Out, os: &[u32], weight: usize) {
     e8(out, os, full, &mut rng);
     e9(out, os, full && weight == 2);
     e10(out, os, full);
+    e11(out, os, full);
+    e12(out, os);
 }
 
 pub fn generate_c01(args: &Args, out: &mut Out) {
